@@ -184,7 +184,7 @@ class ParseArrayLengths(argparse.Action):
 
     @staticmethod
     def parse(values: str | None) -> dict[str, list[int]]:
-        if not values:
+        if values is None or values == "":
             return {}
 
         # syntax: --array-lengths name1=sizes1,name2=sizes2,...
